@@ -87,7 +87,7 @@ def trace_certificates(ctx, n):
         if os.path.exists(tr):
             import C04
             # answers given through the per-frame unsat flags rest on the reported conflict frame and on the guards
-            contract = ["check %d: conflict frame %d but the final conflict uses frame %d" % c for c in C04.engine_contract_violations(tr)] + C04.frame_guard_violations(tr)
+            contract = [("check %d: conflict frame %d but the final conflict uses frame %d" % c) if c[2] != -2 else ("check %d: level-0 conflict reported with conflict frame %d" % c[:2]) for c in C04.engine_contract_violations(tr)] + C04.frame_guard_violations(tr)
             os.remove(tr)
         return text, meta, rc, ev, nq, out.count("unsat"), contract
     with cf.ThreadPoolExecutor(max_workers=12) as ex:
